@@ -33,11 +33,16 @@ VARIABLES
     wch,       \* the caller's sampled wait channel: none | cur | closed
     ctxc,      \* caller's context cancelled
     subc,      \* derived context cancelled (caller's context cancelled, or the call returned)
-    w          \* per function: none | ready (goroutine started, function not yet invoked) |
+    w,         \* per function: none | ready (goroutine started, function not yet invoked) |
                \*   run (inside the function) | left (returned; worker about to take the lock) | exited
+    rv         \* what the call returned ("" while it has not returned; "panic").  Never read by an
+               \* action: it only makes the result part of the state, so that a recorded return can
+               \* be compared with it (CCallXTrace).  NoRv is a VIEW without it (4 more states in
+               \* the quick set without the view, so the configurations do not bother).
 
 xvars == <<sc, pc, imm, running, started, exitErr, wch, ctxc, subc, w>>
-vars == <<xvars, pvars>>
+vars == <<xvars, rv, pvars>>
+NoRv == <<xvars, pvars>>
 
 Fns  == Scens[sc].fns
 N    == Len(Fns)
@@ -49,10 +54,11 @@ Init ==
     /\ sc = 0 /\ pc = "idle" /\ imm = "" /\ running = 0 /\ started = 0 /\ exitErr = "nil"
     /\ wch = "none" /\ ctxc = FALSE /\ subc = FALSE
     /\ w = [f \in 1..MaxN |-> "none"]
+    /\ rv = ""
 
 Choose(k) ==
     /\ sc = 0 /\ sc' = k
-    /\ UNCHANGED <<pc, imm, running, started, exitErr, wch, ctxc, subc, w, pvars>>
+    /\ UNCHANGED <<pc, imm, running, started, exitErr, wch, ctxc, subc, w, rv, pvars>>
 
 \* Steps that the controller cannot separate from the step that enabled them: a woken select,
 \* a function woken by its context, the return path of the 0/1-function cases.
@@ -65,7 +71,7 @@ Silent ==
 Gate == sc # 0 /\ ~(EagerWake /\ Silent)
 
 \* return r: the deferred subCtxCancel runs
-DoRet(r) == pc' = "done" /\ subc' = TRUE /\ PRet(r)
+DoRet(r) == pc' = "done" /\ subc' = TRUE /\ PRet(r) /\ rv' = r
 
 -----------------------------------------------------------------------------
 (* the caller *)
@@ -79,12 +85,12 @@ Call ==
             THEN pc' = "imm" /\ imm' = (IF FixF11 THEN "nil" ELSE "panic") /\ UNCHANGED w
             ELSE pc' = "fn1" /\ w' = [w EXCEPT ![1] = "ready"] /\ UNCHANGED imm   \* runs on the caller's goroutine
        ELSE pc' = "start" /\ UNCHANGED <<w, imm>>
-    /\ UNCHANGED <<sc, running, started, exitErr, wch, ctxc, subc>>
+    /\ UNCHANGED <<sc, running, started, exitErr, wch, ctxc, subc, rv>>
 
 \* len(fns) == 0, or the single nil entry
 ImmRet ==
     /\ sc # 0 /\ pc = "imm"
-    /\ IF imm = "panic" THEN pc' = "done" /\ subc' = TRUE /\ PPanic ELSE DoRet(imm)
+    /\ IF imm = "panic" THEN pc' = "done" /\ subc' = TRUE /\ PPanic /\ rv' = "panic" ELSE DoRet(imm)
     /\ UNCHANGED <<sc, imm, running, started, exitErr, wch, ctxc, w>>
 
 \* ccall.go:41-52: sample the wait channel, count and spawn every non-nil function
@@ -95,20 +101,20 @@ StartCS ==
     /\ started' = Cardinality(Real)
     /\ w' = [f \in 1..MaxN |-> IF f \in Real THEN "ready" ELSE "none"]
     /\ pc' = "unl"
-    /\ UNCHANGED <<sc, imm, exitErr, ctxc, subc, pvars>>
+    /\ UNCHANGED <<sc, imm, exitErr, ctxc, subc, rv, pvars>>
 
 \* ccall.go:53: `if running == 0 { return nil }` -- after the lock was released
 Unl ==
     /\ Gate /\ pc = "unl"
     /\ IF (IF FixF10 THEN started ELSE running) = 0
        THEN DoRet("nil")
-       ELSE pc' = "sel" /\ UNCHANGED <<subc, pvars>>
+       ELSE pc' = "sel" /\ UNCHANGED <<subc, rv, pvars>>
     /\ UNCHANGED <<sc, imm, running, started, exitErr, wch, ctxc, w>>
 
 Wake ==
     /\ sc # 0 /\ pc = "sel" /\ wch = "closed"
     /\ pc' = "loopcs"
-    /\ UNCHANGED <<sc, imm, running, started, exitErr, wch, ctxc, subc, w, pvars>>
+    /\ UNCHANGED <<sc, imm, running, started, exitErr, wch, ctxc, subc, w, rv, pvars>>
 
 WakeCtx ==
     /\ sc # 0 /\ pc = "sel" /\ ctxc
@@ -121,7 +127,7 @@ LoopCS ==
     /\ wch' = "cur"
     /\ IF running = 0 \/ exitErr \notin {"nil", "canceled"}
        THEN DoRet(exitErr)
-       ELSE pc' = "sel" /\ UNCHANGED <<subc, pvars>>
+       ELSE pc' = "sel" /\ UNCHANGED <<subc, rv, pvars>>
     /\ UNCHANGED <<sc, imm, running, started, exitErr, ctxc, w>>
 
 -----------------------------------------------------------------------------
@@ -132,21 +138,21 @@ Enter(f) ==
     /\ Gate /\ f \in Real /\ w[f] = "ready"
     /\ w' = [w EXCEPT ![f] = "run"]
     /\ PEnter(f, subc)
-    /\ UNCHANGED <<sc, pc, imm, running, started, exitErr, wch, ctxc, subc>>
+    /\ UNCHANGED <<sc, pc, imm, running, started, exitErr, wch, ctxc, subc, rv>>
 
 \* environment: function f returns its scripted outcome
 Fin(f) ==
     /\ Gate /\ f \in Real /\ w[f] = "run" /\ Fns[f].out # "wait"
     /\ w' = [w EXCEPT ![f] = "left"]
     /\ PLeave(f, Fns[f].out, subc)
-    /\ UNCHANGED <<sc, pc, imm, running, started, exitErr, wch, ctxc, subc>>
+    /\ UNCHANGED <<sc, pc, imm, running, started, exitErr, wch, ctxc, subc, rv>>
 
 \* a context-respecting function sees its context done and returns ctx.Err()
 WaitWake(f) ==
     /\ sc # 0 /\ f \in Real /\ w[f] = "run" /\ Fns[f].out = "wait" /\ subc
     /\ w' = [w EXCEPT ![f] = "left"]
     /\ PLeave(f, "canceled", TRUE)
-    /\ UNCHANGED <<sc, pc, imm, running, started, exitErr, wch, ctxc, subc>>
+    /\ UNCHANGED <<sc, pc, imm, running, started, exitErr, wch, ctxc, subc, rv>>
 
 \* one function: `return fns[0](subCtx)`
 Ret1 ==
@@ -162,7 +168,7 @@ WorkerCS(f) ==
     /\ exitErr' = IF outs[f] # "nil" /\ exitErr \in {"nil", "canceled"} THEN outs[f] ELSE exitErr
     /\ wch' = IF wch = "cur" THEN "closed" ELSE wch
     /\ w' = [w EXCEPT ![f] = "exited"]
-    /\ UNCHANGED <<sc, pc, imm, started, ctxc, subc, pvars>>
+    /\ UNCHANGED <<sc, pc, imm, started, ctxc, subc, rv, pvars>>
 
 -----------------------------------------------------------------------------
 (* environment *)
@@ -171,7 +177,7 @@ Cancel ==
     /\ Gate /\ Scens[sc].cancel /\ ~ctxc /\ pc \in {"fn1", "start", "unl", "sel", "loopcs"}
     /\ ctxc' = TRUE /\ subc' = TRUE
     /\ PCancel
-    /\ UNCHANGED <<sc, pc, imm, running, started, exitErr, wch, w>>
+    /\ UNCHANGED <<sc, pc, imm, running, started, exitErr, wch, w, rv>>
 
 AllExited == \A f \in Real : w[f] = "exited"
 
@@ -180,7 +186,7 @@ Final ==
     /\ Gate /\ pc = "done" /\ (phase = "returned" => AllExited)
     /\ pc' = "final"
     /\ PFinal
-    /\ UNCHANGED <<sc, imm, running, started, exitErr, wch, ctxc, subc, w>>
+    /\ UNCHANGED <<sc, imm, running, started, exitErr, wch, ctxc, subc, w, rv>>
 
 Next ==
     \/ \E k \in 1..Len(Scens) : Choose(k)
